@@ -280,3 +280,177 @@ Section V2.
     cbn zeta in *. eexists st0, st0', _, _, fin, fin'. split; [exact Hr|exact Hr'].
   Qed.
 End V2.
+
+(* ---- CARv2 cut strictly inside the payload -------------------------------------------------------
+   The LimitedReader still promises DataSize bytes but the source runs dry earlier: [at_bytes] allows
+   "count >= bytes present" when nothing follows. *)
+Section V2Inside.
+  Variable hok : bytes -> bytes -> option bool.
+  Variable hdrdec : bytes -> option (list bytes * N).
+
+  (* the walk over j whole sections followed by nothing or by a cut section, from any state *)
+  Lemma prefix_walk_core o w bs j m cut st pre :
+    blocks_ok hok o bs -> (j <= length bs)%nat ->
+    ((m = 0 /\ cut = []) \/
+     (exists c d, nth_error bs j = Some (c, d) /\ 0 < m /\ m < blen (enc_section c d) /\
+                  cut = take m (enc_section c d))) ->
+    at_bytes st pre (enc_sections (firstn j bs) ++ cut) [] -> p_off st = blen pre -> rsize_inv st ->
+    let full := fst (exp_walk (seekpath st) (p_v1off st) w bs (blen pre) (p_hw st)) in
+    fst (brp_walk hok o w st) = firstn j full /\
+    ((length w <= j)%nat -> fst (snd (brp_walk hok o w st)) = None) /\
+    ((j < length w)%nat -> m = 0 -> fst (snd (brp_walk hok o w st)) = Some EEof) /\
+    ((j < length w)%nat -> 0 < m -> exists e', fst (snd (brp_walk hok o w st)) = Some e' /\ e' <> EEof).
+  Proof.
+    intros Hbs Hj Hcut Hat Hoff Hrs. cbn zeta.
+    assert (Hbsj : blocks_ok hok o (firstn j bs)) by (apply blocks_ok_firstn; exact Hbs).
+    assert (Hlenj : length (firstn j bs) = j) by (apply firstn_length_le; exact Hj).
+    destruct (Nat.le_gt_cases (length w) j) as [Hwj|Hwj].
+    - destruct (walk_within_sections hok hdrdec o w (firstn j bs) st pre cut [] Hbsj ltac:(lia) Hat Hoff Hrs) as (W1 & W2).
+      split; [|split; [intros _; exact W2|split; intros; lia]].
+      rewrite W1. rewrite <- exp_walk_firstn2. rewrite (firstn_all2 (n := j) w) by lia. reflexivity.
+    - assert (Hl1 : length (firstn j w) = length (firstn j bs)) by (rewrite Hlenj; apply firstn_length_le; lia).
+      destruct (walk_past_sections hok hdrdec o (firstn j bs) (firstn j w) (skipn j w) st pre cut [] Hbsj Hl1 Hat Hoff Hrs)
+        as (st' & A1 & A2 & A3 & A4).
+      rewrite exp_walk_firstn2 in A3. rewrite firstn_skipn in A3, A4.
+      destruct (skipn j w) as [|ch w2] eqn:Esk.
+      { exfalso. assert (length (skipn j w) = 0%nat) by (rewrite Esk; reflexivity). rewrite skipn_length in H. lia. }
+      pose proof (vis_at _ _ _ _ A1) as Hvis.
+      assert (Hend : fst (brp_walk hok o (ch :: w2) st') = [] /\
+                     ((m = 0 -> fst (snd (brp_walk hok o (ch :: w2) st')) = Some EEof) /\
+                      (0 < m -> exists e', fst (snd (brp_walk hok o (ch :: w2) st')) = Some e' /\ e' <> EEof))).
+      { destruct Hcut as [(Hm0 & ->)|(c & d & Hn & Ha & Hb & ->)].
+        - assert (E1 : brp_next hok o st' = Err EEof) by (eapply brp_next_end; exact A1).
+          assert (E2 : brp_skip o st' = Err EEof) by (eapply brp_skip_end; exact A1).
+          destruct ch; cbn [brp_walk]; [rewrite E1|rewrite E2]; cbn [fst snd];
+            (split; [reflexivity|split; [reflexivity|intros; lia]]).
+        - destruct Hbs as (Hok & _). assert (Hbc : block_ok (o_maxs o) (c, d)) by (eapply Forall_nth; eassumption).
+          destruct (cut_section_calls_fail hok hdrdec o st' c d m Hbc Ha Hb Hvis (rsize_inv_ok st' A2))
+            as ((e1 & Hne1 & He1) & (e2 & Hne2 & He2)).
+          destruct ch; cbn [brp_walk]; [rewrite He1|rewrite He2]; cbn [fst snd];
+            (split; [reflexivity|split; [intros; lia|intros _; eexists; split; [reflexivity|assumption]]]). }
+      destruct Hend as (Hs0 & Hm0 & Hm1). rewrite Hs0, app_nil_r in A3.
+      split; [exact A3|]. split; [intros; lia|]. split.
+      + intros _ Hz. rewrite A4. apply Hm0. exact Hz.
+      + intros _ Hp. rewrite A4. apply Hm1. exact Hp.
+  Qed.
+
+  (* NewBlockReader on a CARv2 container whose data window holds [ld header ++ x], possibly fewer
+     bytes than DataSize promises when nothing follows *)
+  Lemma brp_open_v2_gen o seek roots hi lo ioff pad D x tr :
+    hdrdec (enc_header (Some roots) 1) = Some (roots, 1) ->
+    blen (enc_header (Some roots) 1) <= o_maxh o -> blen (enc_header (Some roots) 1) < two63 ->
+    hdrdec pragma_body = Some ([], 2) -> 10 <= o_maxh o ->
+    hi < two64 -> lo < two64 -> ioff < two63 -> 51 + blen pad < two63 -> 0 < D -> D < two63 ->
+    (D = blen (ld (enc_header (Some roots) 1) ++ x) \/ (blen (ld (enc_header (Some roots) 1) ++ x) <= D /\ tr = [])) ->
+    let pfx := pragma ++ enc_v2hdr (mkv2 hi lo (51 + blen pad) D ioff) ++ pad in
+    exists st0,
+      brp_open hdrdec o seek (pfx ++ (ld (enc_header (Some roots) 1) ++ x) ++ tr) = Ok (2, roots, st0) /\
+      at_bytes st0 (pfx ++ ld (enc_header (Some roots) 1)) x tr /\
+      p_off st0 = blen (pfx ++ ld (enc_header (Some roots) 1)) /\ rsize_inv st0 /\
+      seekpath st0 = false /\ p_v1off st0 = 51 + blen pad /\
+      p_hw st0 = blen (pfx ++ ld (enc_header (Some roots) 1)).
+  Proof.
+    intros H1 H2 H3 P1 P2 P3 P4 P5 P6 D0 D63 HD. cbn zeta.
+    set (hb := enc_header (Some roots) 1) in *.
+    set (hd := mkv2 hi lo (51 + blen pad) D ioff).
+    set (pfx := pragma ++ enc_v2hdr hd ++ pad).
+    assert (Hflat : pfx ++ (ld hb ++ x) ++ tr = ld pragma_body ++ enc_v2hdr hd ++ pad ++ (ld hb ++ x) ++ tr)
+      by (unfold pfx; rewrite <- !app_assoc; reflexivity).
+    rewrite Hflat.
+    set (file := ld pragma_body ++ enc_v2hdr hd ++ pad ++ (ld hb ++ x) ++ tr).
+    assert (HP : blen pfx = 51 + blen pad) by (unfold pfx; rewrite !blen_app, blen_enc_v2hdr, blen_pragma; lia).
+    unfold brp_open. unfold read_header at 1. unfold file at 1.
+    rewrite ld_read_ld; [|cbn; unfold two63; lia|exact P2|discriminate].
+    rewrite P1. cbn [N.eqb Pos.eqb].
+    rewrite read_v2hdr_enc; cbn [h_hi h_lo h_doff h_dsize h_ioff hd]; try assumption; try lia.
+    replace (51 + blen pad - 51) with (blen pad) by lia.
+    replace (blen (pad ++ (ld hb ++ x) ++ tr) <? blen pad) with false by (rewrite blen_app; lia).
+    rewrite andb_false_r. change (ld_size (blen pragma_body)) with 11.
+    set (st00 := mkbrp file seek (11 + 40 + blen pad) (if seek then 11 + 40 else 11 + 40 + blen pad)
+                       (Some D) (51 + blen pad) (51 + blen pad) (Some (wrap64 (51 + blen pad + D)))).
+    assert (Hat0 : at_bytes st00 pfx (ld hb ++ x) tr).
+    { unfold at_bytes, st00. cbn [p_all p_pos p_lim]. split; [unfold file; symmetry; exact Hflat|]. split; [rewrite HP; lia|exact HD]. }
+    rewrite (vis_at _ _ _ _ Hat0).
+    unfold hb. rewrite (read_header_payload hdrdec (o_maxh o) roots x H1 H2 H3). fold hb. cbn [N.eqb Pos.eqb].
+    set (hl := ld_size (blen hb)).
+    assert (Hhl : hl = blen (ld hb)) by (unfold hl; rewrite blen_ld; reflexivity).
+    assert (Hhl1 : 1 <= hl) by (unfold hl, ld_size; pose proof (uv_size_pos (blen hb)); lia).
+    set (st0 := set_off (51 + blen pad + header_size roots 1) (adv hl st00)).
+    exists st0. split; [reflexivity|].
+    assert (Hlen : blen (pfx ++ ld hb) = 51 + blen pad + hl) by (rewrite blen_app, HP, <- Hhl; reflexivity).
+    split; [unfold st0; apply at_set_off; rewrite Hhl; apply at_adv; exact Hat0|].
+    split; [unfold st0; cbn [set_off p_off]; rewrite Hlen; reflexivity|].
+    split; [unfold rsize_inv, st0, st00; cbn; discriminate|].
+    split; [unfold seekpath, st0, st00; cbn; apply andb_false_r|].
+    split; [reflexivity|].
+    unfold st0, st00. cbn [set_off adv p_hw p_pos]. replace (hl =? 0) with false by lia.
+    rewrite Hlen. destruct seek; lia.
+  Qed.
+
+  Theorem c14_prefix_walk_v2 o seek roots bs w hi lo ioff pad trailer k :
+    hdrdec (enc_header (Some roots) 1) = Some (roots, 1) ->
+    blen (enc_header (Some roots) 1) <= o_maxh o -> blen (enc_header (Some roots) 1) < two63 ->
+    Forall (block_ok (o_maxs o)) bs -> Forall (fun b => cid_stream_ok (fst b)) bs ->
+    (o_trusted o = false -> Forall (hash_good hok) bs) ->
+    hdrdec pragma_body = Some ([], 2) -> 10 <= o_maxh o ->
+    hi < two64 -> lo < two64 -> ioff < two63 ->
+    51 + blen pad < two63 -> blen (enc_payload roots bs) < two63 ->
+    let file := v2_file hi lo ioff pad (enc_payload roots bs) trailer in
+    let base := 51 + blen pad in
+    base + blen (ld (enc_header (Some roots) 1)) <= k -> k <= base + blen (enc_payload roots bs) ->
+    exists j m st_full full e_full fin_full st0 e fin,
+      brp_run hok hdrdec o seek file w = Ok (2, roots, st_full, (full, (e_full, fin_full))) /\
+      (j <= length bs)%nat /\
+      k = base + blen (ld (enc_header (Some roots) 1) ++ enc_sections (firstn j bs)) + m /\
+      (m = 0 \/ exists c d, nth_error bs j = Some (c, d) /\ 0 < m /\ m < blen (enc_section c d)) /\
+      brp_run hok hdrdec o seek (take k file) w = Ok (2, roots, st0, (firstn j full, (e, fin))) /\
+      ((length w <= j)%nat -> e = None) /\
+      ((j < length w)%nat -> m = 0 -> e = Some EEof) /\
+      ((j < length w)%nat -> 0 < m -> exists e', e = Some e' /\ e' <> EEof).
+  Proof.
+    intros H1 H2 H3 H4 H5 H6 P1 P2 P3 P4 P5 P6 P7. cbn zeta. intros Hk1 Hk2.
+    pose proof (walk_ok_intro hok hdrdec o roots bs H1 H2 H3 H4 H5 H6) as Hok.
+    assert (Hpar : v2_params_ok hdrdec o hi lo ioff pad (enc_payload roots bs)) by (repeat split; assumption).
+    destruct (brp_run_v2 hok hdrdec o seek roots bs w hi lo ioff pad trailer Hok Hpar) as (st_full & fin_full & Hfull & _).
+    cbn zeta in Hfull.
+    set (hb := enc_header (Some roots) 1) in *. set (base := 51 + blen pad) in *.
+    set (h := base + sec_start roots bs 0) in *.
+    set (full := fst (exp_walk false base w bs h h)) in *.
+    assert (Hs0 : sec_start roots bs 0 = blen (ld hb)) by apply sec_start_0.
+    set (D := blen (enc_payload roots bs)) in *.
+    set (pfx := pragma ++ enc_v2hdr (mkv2 hi lo base D ioff) ++ pad).
+    assert (HP : blen pfx = base) by (unfold pfx, base; rewrite !blen_app, blen_enc_v2hdr, blen_pragma; lia).
+    assert (Hpl : D = blen (ld hb) + blen (enc_sections bs)) by (unfold D, enc_payload; apply blen_app).
+    destruct (sections_prefix bs (k - base - blen (ld hb)) ltac:(lia)) as (j & m & cut & Hj & Ht & Hm & Hcut).
+    (* the prefix, as a container whose window is short *)
+    assert (Htake : take k (v2_file hi lo ioff pad (enc_payload roots bs) trailer)
+                    = pfx ++ (ld hb ++ (enc_sections (firstn j bs) ++ cut)) ++ []).
+    { unfold v2_file. fold base D. unfold enc_payload. fold hb.
+      replace (pragma ++ enc_v2hdr (mkv2 hi lo base D ioff) ++ pad ++ (ld hb ++ enc_sections bs) ++ trailer)
+        with ((pfx ++ ld hb) ++ enc_sections bs ++ trailer) by (unfold pfx; rewrite <- !app_assoc; reflexivity).
+      rewrite take_app_ge by (rewrite blen_app, HP; lia).
+      rewrite take_app_le by (rewrite blen_app, HP; lia).
+      replace (k - blen (pfx ++ ld hb)) with (k - base - blen (ld hb)) by (rewrite blen_app, HP; lia).
+      rewrite Ht, app_nil_r, <- !app_assoc. reflexivity. }
+    rewrite Htake.
+    assert (Hxlen : blen (ld hb ++ enc_sections (firstn j bs) ++ cut) <= D).
+    { rewrite <- Ht. rewrite !blen_app, blen_take. lia. }
+    destruct (brp_open_v2_gen o seek roots hi lo ioff pad D (enc_sections (firstn j bs) ++ cut) []
+                H1 H2 H3 P1 P2 P3 P4 P5 P6 (blen_enc_payload_pos roots bs) P7 (or_intror (conj Hxlen eq_refl)))
+      as (st0 & Hopen & Hat & Hoff & Hrs & Hsp & Hv1 & Hhw).
+    cbn zeta in Hopen. fold hb base pfx in Hopen, Hat, Hoff, Hhw.
+    assert (Hlen0 : blen (pfx ++ ld hb) = h) by (unfold h; rewrite blen_app, HP, Hs0; reflexivity).
+    destruct (prefix_walk_core o w bs j m cut st0 (pfx ++ ld hb) (walk_ok_blocks hok hdrdec o roots bs Hok) Hj Hcut Hat Hoff Hrs)
+      as (C1 & C2 & C3 & C4).
+    cbn zeta in C1. rewrite Hsp, Hv1, Hhw, Hlen0 in C1. fold base full in C1.
+    exists j, m, st_full, full, (snd (exp_walk false base w bs h h)), fin_full,
+           st0, (fst (snd (brp_walk hok o w st0))), (snd (snd (brp_walk hok o w st0))).
+    split; [exact Hfull|]. split; [exact Hj|].
+    split; [rewrite blen_app; lia|].
+    split; [destruct Hcut as [(Hm0 & _)|(c & d & Hn & Ha & Hb & _)]; [left; exact Hm0|right; exists c, d; auto]|].
+    split; [|split; [exact C2|split; [exact C3|]]].
+    - unfold brp_run. rewrite Hopen. f_equal. f_equal.
+      destruct (brp_walk hok o w st0) as [steps [e fin]]. cbn [fst snd] in *. rewrite C1. reflexivity.
+    - intros A B. destruct (C4 A B) as (e' & He & Hne). exists e'. split; assumption.
+  Qed.
+End V2Inside.
